@@ -146,6 +146,21 @@ void construct_one(Run& r, std::index_sequence<I...>)
         }
     }
 }
+// ---- construct<T,I> builds T{value}: for a type where T(v) and T{v} differ (std::vector<int> from an int) the documented form is the list
+template<size_t K, size_t N, size_t... I>
+void construct_list_one(Run& r, std::index_sequence<I...>)
+{
+    r.item("construct(list-init)", K, N, 0, 0);
+    std::array<int, K> args{}; for (size_t i = 0; i < K; ++i) args[i] = 2 + int(i) + (r.ids[i % r.ids.size()] % 5);
+    using F = ctpg::ftors::construct<std::vector<int>, N>;
+    if constexpr (!std::is_invocable_v<F, decltype(std::move(args[I]))...>) { r.fail(Run::where("construct<std::vector<int>,I> not invocable at a valid position", K, N, 0, 0)); return; }
+    else
+    {
+        auto res = F{}(std::move(args[I])...);
+        if (res.size() != 1 || res[0] != args[N - 1]) r.fail(Run::where("construct<std::vector<int>,I> did not build T{I-th value} (a one-element list)", K, N, 0, 0));
+    }
+}
+
 // ---- push_back<C,A> / emplace_back<C,A> -------------------------------------------------------------
 // heterogeneous argument lists: position C holds a container, all others hold tags
 template<class T, size_t K, size_t C, size_t A, int Cat, bool Emplace, size_t... I>
@@ -210,6 +225,7 @@ void per_position(Run& r)
     auto seq = std::make_index_sequence<K>{};
     element_one<K, N, Cat, Tag>(r, seq); element_one<K, N, Cat, MTag>(r, seq);
     construct_one<K, N, Cat, Tag>(r, seq); construct_one<K, N, Cat, MTag>(r, seq);
+    if constexpr (Cat == 0) construct_list_one<K, N>(r, seq);
 }
 template<size_t K, size_t C, size_t A, int Cat>
 void per_pair(Run& r)
